@@ -125,13 +125,11 @@ def liveAfter (live : List LDep) : ROp → List LDep
   | .remove x => live.filter (fun y => !(y == x))
 
 /-- fresh load: every checkable pushes, per key, one group with all its pending dependencies
-    (`PushDependencyGroupsToRegistry`); `todo` lists the (child, key) pairs still to push. -/
+    (`PushDependencyGroupsToRegistry`); `todo` lists the (child, key) pairs still to push — every pair
+    that has pending dependencies exactly once, in whatever order the checkables are started. -/
 def pushAll (live : List LDep) : RState → List (Nat × GKey) → RState
   | st, [] => st
   | st, (c, k) :: rest =>
     pushAll live (addGroup st c k (live.filter (fun x => x.d.child == c && x.d.key == k))) rest
-
-def freshLoad (live : List LDep) : RState :=
-  pushAll live {} ((live.map (fun x => (x.d.child, x.d.key))).eraseDups)
 
 end Icinga.C07
